@@ -166,7 +166,11 @@ class Episode(object):
             props['name'] = name_variant(wc['name'], op.get('case'))
         for key in ('pid', 'childpid'):
             if isinstance(props.get(key), dict):
-                props[key] = self.resolve_pid(props[key])
+                ref = props[key]
+                props[key] = self.resolve_pid(ref)
+                if ref.get('as_str'):
+                    # the number as a JSON string (an ill-typed property)
+                    props[key] = str(props[key])
         return props
 
     # ---------------------------------------------------------------- ops
